@@ -4,6 +4,7 @@
 Require Import EnrProofs.Tactics EnrProofs.BytesLemmas EnrProofs.RlpLemmas EnrProofs.UpdateLemmas
   EnrProofs.RefineLemmas EnrProofs.Thm_Refine EnrProofs.Thm_Valid EnrProofs.Thm_More.
 Require Import Enr.Consts Enr.Rlp Enr.SortedMap Enr.Keccak Enr.Record Enr.Update Enr.Spec.
+Require Import EnrProofs.WellFormedLemmas.
 Open Scope N_scope.
 
 (* ---- lengths of minimal big-endian numbers ---- *)
@@ -123,6 +124,61 @@ Proof.
       * unfold cand in *. congruence.
       * congruence.
     + exfalso. revert E. apply Thm_More.finish_no_panic.
+Qed.
+
+(* the exact relation between the builder's conservative estimate and the real size *)
+Lemma size_vs_estimate sq nd m s :
+  lenN (signed_payload_of sq m) + lenN s <= size (cand sq nd m s).
+Proof.
+  rewrite size_cand. unfold signed_payload_of, enc_list, payload_body, body_len. rewrite !lenN_app.
+  pose proof (lenN_enc_string_ge s) as Hs.
+  pose proof (hdr_len_mono true (lenN (enc_uint sq) + lenN (flat_map enc_pair m))
+                (lenN (enc_string s) + lenN (enc_uint sq) + lenN (flat_map enc_pair m)) ltac:(lia)) as Hm.
+  lia.
+Qed.
+
+Theorem build_refusal sq calls k sg s nd :
+  let m := with_key (sm_insert k_id (enc_string v4) (fold_left apply_bcall calls [])) k in
+  check_all c (fold_left apply_bcall calls []) = Ok tt ->
+  check_keyed_by c kt m k = Ok tt ->
+  sg (signed_payload_of sq m) = Some s ->
+  (* the builder's rule *)
+  (build c kt sq calls k sg = Err EExceedsMaxSize <-> MAX_ENR_SIZE < lenN (signed_payload_of sq m) + lenN s + 8) /\
+  (* every result above 300 bytes is refused *)
+  (MAX_ENR_SIZE < size (cand sq nd m s) -> build c kt sq calls k sg = Err EExceedsMaxSize) /\
+  (* nothing at or below 292 bytes is refused for size *)
+  (build c kt sq calls k sg = Err EExceedsMaxSize -> 292 < size (cand sq nd m s)) /\
+  (* what is returned is the candidate, at most 300 bytes *)
+  (forall r, build c kt sq calls k sg = Ok r -> r = cand sq (node_id_of (sk_pub k)) m s /\ size r <= MAX_ENR_SIZE).
+Proof.
+  intros m Hchk Hk Hsg. unfold build. rewrite Hchk. cbn [bind]. fold m. rewrite Hk. cbn [bind]. rewrite Hsg. cbn [bind].
+  pose proof (size_vs_estimate sq nd m s) as Hlow.
+  destruct (MAX_ENR_SIZE <? lenN (signed_payload_of sq m) + lenN s + 8) eqn:E.
+  - split; [split; [intros _; lia | reflexivity]|]. split; [reflexivity|]. split; [intros _; unfold MAX_ENR_SIZE in *; lia | discriminate].
+  - assert (Hfit : size (cand sq nd m s) <= MAX_ENR_SIZE).
+    { unfold size, encode, cand. cbn [seq content sig]. apply build_size_bound. lia. }
+    split; [split; [discriminate | intros H; lia]|]. split; [intros H; lia|]. split; [discriminate|].
+    intros r H. inv H. split; [reflexivity|]. unfold size, encode. cbn [seq content sig]. apply build_size_bound. lia.
+Qed.
+
+(* every update on a record whose signature has the same length as the new one (the built-in 64-byte
+   schemes) is refused for size exactly when the result exceeds 300 bytes *)
+Theorem step_refused_iff r o k sg s :
+  seq r < 2 ^ 64 -> seq r <> U64_MAX -> (forall n, o <> OSetSeq n) ->
+  check_list c (checked_inserts o) = Ok tt ->
+  check_keyed_by c kt (spec_pairs o k (content r)) k = Ok tt ->
+  id_is_v4 (cand (seq r + 1) (nid r) (spec_pairs o k (content r)) (sig r)) = true ->
+  sg (signed_payload_of (seq r + 1) (spec_pairs o k (content r))) = Some s ->
+  lenN (sig r) = lenN s -> 2 <= lenN s ->
+  (fst (step c kt r o k sg) = Err EExceedsMaxSize <->
+   MAX_ENR_SIZE < size (cand (seq r + 1) (node_id_of (sk_pub k)) (spec_pairs o k (content r)) s)).
+Proof.
+  intros H64 Hmax Hno Hchk Hk Hid Hsg Hl H2.
+  assert (Hc : commit c kt r o k sg = finish c kt (pre_check o) r (spec_pairs o k (content r)) k sg).
+  { destruct o; try reflexivity. elim (Hno n eq_refl). }
+  unfold step. rewrite apply_op_nf, Hchk. cbn [bind]. rewrite Hc.
+  rewrite <- (finish_refused_iff (pre_check o) r (spec_pairs o k (content r)) k sg s H64 Hmax Hk Hid Hsg Hl H2).
+  destruct (finish c kt (pre_check o) r (spec_pairs o k (content r)) k sg) as [r'|e|]; cbn [bind fst]; split; intros H; try discriminate; try (inv H; reflexivity).
 Qed.
 
 End WithCrypto.
